@@ -379,6 +379,9 @@ mut("C13-reverse-vertex", "C13", [(SG, """                if path_index >= self.
                     vertex = self.vertices[path_index][0] # Beginning of next path""")],
     "reversed ends measured at the path start")
 
+mut("C13-class-pathcount", "C13", [(SG, "        self.path_count = len(vertices)\n", "        Index.path_count = len(vertices)\n")],
+    "path count written to the class: an index built later changes the answers of an earlier one "
+    "(state shared between objects; needs two indexes in one process)")
 # ------------------------------------------------------------------------------- C14
 mut("C14-revert-strict", "C14", [(RT, "if x_1 <= center_x and y_1 <= center_y", "if x_1 < center_x and y_1 < center_y")],
     "partial revert of the rtree fix (first quadrant only)")
@@ -392,6 +395,8 @@ mut("C14-leaf-rule", "C14", [(RT, "        if max(map(len, sub_bboxes)) == len(b
 mut("C14-center", "C14", [(RT, "            center_y += (ymin/2 + ymax/2) / len(bboxes)", "            center_y += (ymin/2 + ymax/2) / (len(bboxes) + 1)")],
     "centre not the mean (equivalent for correctness: any split point works) - expected MISSED")
 
+mut("C14-class-bboxes", "C14", [(RT, "            self.bboxes = bboxes\n", "            self.bboxes += bboxes\n")],
+    "leaf boxes appended to the class-level list: every index in the process shares it")
 # ------------------------------------------------------------------------------- C15
 mut("C15-string-compare", "C15", [(SER, "        if parse(ebb_version_string) >= parse(version_string):", "        if ebb_version_string >= version_string:")])
 mut("C15-ebb3-string-compare", "C15", [(SER3, "        if self.version_parsed >= parsed_version_string:", "        if str(self.version_parsed) >= str(parsed_version_string):")])
